@@ -30,5 +30,19 @@ for r in rows:
 s = open(os.path.join(V, 'DESIGN.md')).read()
 a, b = '<!-- SEEDED-TABLE-BEGIN -->', '<!-- SEEDED-TABLE-END -->'
 s = s[:s.index(a) + len(a)] + '\n' + '\n'.join(tab) + '\n' + s[s.index(b):]
+# harmless rewrites
+hp = os.path.join(V, 'harmless', 'results.txt')
+if os.path.exists(hp) and '<!-- HARMLESS-TABLE-BEGIN -->' in s:
+    agg = {}
+    for l in open(hp):
+        m = re.match(r'(\S+\.diff) (C\d\d) exit=(\d+) (\d+)s ?(.*)', l.strip())
+        if m:
+            verdict = 'quiet (exit 0)' if m.group(3) == '0' else ('alarm: proof/tie broke, no-failing-input-found' if 'no-failing-input-found' in m.group(5) else 'ALARM with an input (would be a false alarm)')
+            agg.setdefault(m.group(1), []).append(f'{m.group(2)}: {verdict}')
+    tab2 = ['| behaviour-preserving rewrite | quick checks run against it |', '|---|---|']
+    for k in sorted(agg):
+        tab2.append(f'| `{k}` | ' + '; '.join(agg[k]) + ' |')
+    a2, b2 = '<!-- HARMLESS-TABLE-BEGIN -->', '<!-- HARMLESS-TABLE-END -->'
+    s = s[:s.index(a2) + len(a2)] + '\n' + '\n'.join(tab2) + '\n' + s[s.index(b2):]
 open(os.path.join(V, 'DESIGN.md'), 'w').write(s)
 print(len(rows), 'rows')
